@@ -139,15 +139,17 @@ pub struct Insp {
     /// total number of on_token calls (never rewound): a deterministic work counter
     pub work: u64,
     pub rewinds: u64,
+    /// 0 = unlimited; otherwise on_token panics once `work` exceeds it (C20's deterministic work bound)
+    pub budget: u64,
 }
 impl Default for Insp {
     fn default() -> Self {
-        Insp { n: 0, h: FNV0, log: Vec::new(), work: 0, rewinds: 0 }
+        Insp { n: 0, h: FNV0, log: Vec::new(), work: 0, rewinds: 0, budget: 0 }
     }
 }
 impl Insp {
     pub fn seeded(seed: u64) -> Insp {
-        Insp { n: 0, h: FNV0 ^ seed.wrapping_mul(0x9e3779b97f4a7c15), log: Vec::new(), work: 0, rewinds: 0 }
+        Insp { n: 0, h: FNV0 ^ seed.wrapping_mul(0x9e3779b97f4a7c15), log: Vec::new(), work: 0, rewinds: 0, budget: 0 }
     }
     pub fn fold(mut self, toks: impl Iterator<Item = char>) -> Insp {
         for c in toks {
@@ -167,6 +169,9 @@ where
         self.n += 1;
         self.h = fnv_step(self.h, t.to_char());
         self.work += 1;
+        if self.budget != 0 && self.work > self.budget {
+            panic!("work budget exceeded: more than {} tokens consumed", self.budget);
+        }
     }
     #[inline]
     fn on_save<'p>(&self, _: &Cursor<'s, 'p, I>) -> Self::Checkpoint {
